@@ -318,4 +318,24 @@ func TestC08Close(t *testing.T) {
 	b, found := k.GetBorrow(ctx, 1)
 	_, lfound := k.GetLend(ctx, 3)
 	tr.p("# after two closing bids: borrow 1 found %v liquidated %v bridged %s; lend 3 found %v", found, b.IsLiquidated, b.BridgedAssetAmount, lfound)
+
+	// ---- case 3: finding C08-F4, the generation-1 hand-over message (x/liquidation MsgLiquidateBorrow, still routed)
+	ctx, _ = base.CacheContext()
+	ctx = ctx.WithBlockTime(baseTime).WithBlockHeight(3)
+	tr.p("case 3 5")
+	c08Project(f, ctx, tr)
+	run(fmt.Sprintf("lend 2 %d %d 1000000000 %d %d 0", A[2], A[2], p1, f.app), lendtypes.NewMsgLend(u2, A[2], c(A[2], 1000000000), p1, f.app))
+	run(fmt.Sprintf("lend 1 %d %d 2000000000 %d %d 0", A[1], A[1], p1, f.app), lendtypes.NewMsgLend(u1, A[1], c(A[1], 2000000000), p1, f.app))
+	run(fmt.Sprintf("borrow 1 2 %d false %d 1000000000 %d 900000 0 0 0 0 0 0", pid, f.cassets[1], A[2]),
+		lendtypes.NewMsgBorrow(u1, 2, pid, false, c(f.cassets[1], 1000000000), c(A[2], 900000)))
+	crash(A[1], 700000)
+	report("before the generation-1 hand-over", p1, A[2])
+	v1msg := &liqv1types.MsgLiquidateBorrowRequest{From: u2, BorrowId: 1}
+	run(c08V1Env(f, ctx, 1, v1msg), v1msg)
+	report("after the generation-1 hand-over", p1, A[2])
+	b, _ = k.GetBorrow(ctx, 1)
+	l2, _ := k.GetLend(ctx, 2)
+	st2, _ := k.GetAssetStatsByPoolIDAndAssetID(ctx, p1, A[1])
+	tr.p("# borrow 1: liquidated %v amount_in %s amount_out %s; lend 2: amount_in %s available %s; total_lend of asset 2 %s", b.IsLiquidated, b.AmountIn.Amount,
+		b.AmountOut.Amount, l2.AmountIn.Amount, l2.AvailableToBorrow, st2.TotalLend)
 }
